@@ -1,5 +1,17 @@
 package harness
 
-import "testing"
+import (
+	"testing"
 
-func TestC07System(t *testing.T) { t.Skip("not built yet") }
+	"pgregory.net/rapid"
+)
+
+var c07SysCfg = SGenCfg{RFs: []int{3, 3, 2}, MinOps: 3, MaxOps: 8, FaultPct: 0, Blocks: 16,
+	W: map[string]int{"write": 40, "snapshot": 14, "sysrebuild": 30, "read": 6}}
+
+// TestC07System — the product's own rebuild (sync.Task.AddReplica, real sync
+// agents and ssync children) with concurrent foreground writes.
+func TestC07System(t *testing.T) {
+	runStackProperty(t, "C07", "TestC07System", func(rt *rapid.T) SProgram { return GenSProgram(rt, c07SysCfg) },
+		func(p SProgram, x *SExec) bool { return x.Labels["sysrebuild:promoted"] > 0 })
+}
